@@ -63,6 +63,8 @@ extern int verif_recursive_reads;  /* rdlock of an rwlock already read-held by t
 extern unsigned verif_acq_count[L_COUNT];
 extern unsigned verif_rel_count[L_COUNT];
 bool verif_all_free(void);
+unsigned verif_max_acq(void);      /* largest number of acquisitions of one lock since verif_locks_reset() */
+extern bool verif_tags_armed;      /* glib model: container lock tags are checked only while armed (VERIF_LOCK_TAGS) */
 bool verif_held(int id);           /* any hold */
 bool verif_held_w(int id);         /* write/mutex hold */
 void verif_locks_reset(void);
